@@ -243,11 +243,47 @@ func genC04(cs *CaseSet, rng *Rng, tier string, dir string) {
 					return keepalive()
 				}
 			}
+			forcedIdx := -1
+			var stalePw []byte
 			for k := 0; k < perEnv; k++ {
+				// "that account's CURRENT password": every eighth attempt is a plain successful login to some account,
+				// whose password is then changed through the account manager (what the account editor does); the
+				// next attempt presents the old password and must be refused like any other wrong one
+				forced := false
+				if k%8 == 3 {
+					forcedIdx = -1
+					for tries := 0; tries < 8 && forcedIdx < 0; tries++ {
+						if i := rng.Intn(len(accts) - 1); len(accts[i].pw) <= 72 {
+							forcedIdx = i
+						}
+					}
+					forced = forcedIdx >= 0
+				} else if k%8 == 4 && forcedIdx >= 0 {
+					forced = true
+					old := accts[forcedIdx]
+					stalePw = append([]byte{}, old.pw...)
+					newPw := []byte(fmt.Sprintf("changed-%d-%d", e, k))
+					acc := env.Srv.AccountManager.Get(old.login)
+					if acc == nil {
+						panic("forced account vanished")
+					}
+					upd := *acc
+					upd.Password = hotline.HashAndSalt(newPw)
+					must(env.Srv.AccountManager.Update(upd, old.login))
+					accts[forcedIdx].pw = newPw
+					dbArgs = nil
+					for _, a := range accts {
+						dbArgs = append(dbArgs, []byte(a.login), a.pw)
+					}
+				}
 				// ---- handshake ----
 				hs := []byte{'T', 'R', 'T', 'P', 'H', 'O', 'T', 'L', byte(rng.Intn(3)), byte(rng.Intn(3)), byte(rng.Intn(3)), byte(rng.Intn(3))}
 				hsKind := "valid"
-				switch rng.Intn(14) {
+				hsr := rng.Intn(14)
+				if forced {
+					hsr = 13
+				}
+				switch hsr {
 				case 0:
 					hs[3] = 'Q'
 					hsKind = "bad-protocol"
@@ -267,7 +303,17 @@ func genC04(cs *CaseSet, rng *Rng, tier string, dir string) {
 				pw := append([]byte{}, a.pw...)
 				want := "good"
 				pick := rng.Intn(13)
-				if len(pw) > 72 && rng.Bool() { // an account with an empty stored hash: the empty password must not open it
+				if forced {
+					a = accts[forcedIdx]
+					login = []byte(a.login)
+					pw = append([]byte{}, a.pw...)
+					pick = 0
+					if k%8 == 4 {
+						pw = append([]byte{}, stalePw...)
+						want = "bad"
+						cs.Count("login:old-password-after-change")
+					}
+				} else if len(pw) > 72 && rng.Bool() { // an account with an empty stored hash: the empty password must not open it
 					pw = []byte{}
 					want = "bad"
 					pick = 0
@@ -327,17 +373,17 @@ func genC04(cs *CaseSet, rng *Rng, tier string, dir string) {
 					want = "case-variant"
 				}
 				typ := 107
-				if rng.Intn(8) == 0 {
+				if rng.Intn(8) == 0 && !forced {
 					typ = rng.Pick(105, 200, 500, 0, 121)
 				}
 				var fields []RField
 				if login != nil || rng.Bool() {
 					fields = append(fields, RField{105, obfuscate(login)})
 				}
-				if rng.Intn(10) != 0 {
+				if rng.Intn(10) != 0 || forced {
 					fields = append(fields, RField{106, pw})
 				}
-				if rng.Intn(6) == 0 { // a second login field: the first one counts
+				if rng.Intn(6) == 0 && !forced { // a second login field: the first one counts
 					fields = append(fields, RField{105, obfuscate([]byte("admin"))})
 				}
 				if rng.Bool() {
@@ -367,7 +413,11 @@ func genC04(cs *CaseSet, rng *Rng, tier string, dir string) {
 				}
 				first := refEncode(typ, id(), fields...)
 				shape := "well-formed"
-				switch rng.Intn(16) {
+				shr := rng.Intn(16)
+				if forced {
+					shr = 15
+				}
+				switch shr {
 				case 0: // data size differs from total size
 					copy(first[16:20], be32(3))
 					shape = "datasize-off"
